@@ -68,3 +68,108 @@ def capture(e, crate, fname, args, st, which=0):
         del e.stack[depth:]
     if 'f' not in cap: raise NotRecognised('loop %d of %s was not reached' % (which, fname))
     return cap['f']
+
+
+# ---------------------------------------------------------------------- which locals carry state from one iteration to the next
+_PROJ = {'deref', 'field', 'variant', 'index', 'cindex', 'subslice'}
+
+
+def _is_place(x):
+    return isinstance(x, tuple) and len(x) == 2 and isinstance(x[0], int) and isinstance(x[1], tuple) and all(isinstance(p, tuple) and p and p[0] in _PROJ for p in x[1])
+
+
+def _uses(x, out):
+    """locals read by a parsed rvalue / operand / place (recursively)"""
+    if _is_place(x):
+        out.append(x[0])
+        for p in x[1]:
+            if p[0] == 'index': out.append(p[1])
+        return
+    if isinstance(x, (tuple, list)):
+        for y in x: _uses(y, out)
+
+
+def _block_use_def(fn, b):
+    """(locals used before being defined in block b, locals defined in b) in statement order"""
+    stmts, term, _ = fn.blocks[b]
+    use = set(); dfn = set(); mut_refs = set()
+
+    def rd(x):
+        tmp = []; _uses(x, tmp)
+        for l in tmp:
+            if l not in dfn: use.add(l)
+
+    def wr(pl):
+        if _is_place(pl):
+            if pl[1]: rd(pl)              # a write through a projection reads the base
+            else: dfn.add(pl[0])
+    for st in stmts:
+        k = st[0]
+        if k == 'assign':
+            rd(st[2]); wr(st[1])
+            if isinstance(st[2], tuple) and st[2] and st[2][0] == 'ref' and st[2][2] and _is_place(st[2][1]):
+                mut_refs.add(st[2][1][0])          # `&mut local`: whoever gets the reference may change it
+        elif k == 'dead': dfn.add(st[1])
+        elif k == 'setdiscr': rd(st[1])
+        else: rd(st[1:])
+    if isinstance(term, tuple):
+        if term[0] == 'drop': pass        # dropping reads nothing the lemmas speak about (uninitialised locals are guarded by drop flags)
+        elif term[0] == 'call':      # ('call', destination place or None, callee, argument operands, target block)
+            rd(term[3])
+            if not isinstance(term[2], str): rd(term[2])
+            if term[1] is not None: wr(term[1])
+        else: rd(term[1:])
+    return use, dfn, mut_refs
+
+
+def loop_carried(fn, info, L):
+    """locals that are live at the header of loop L and assigned inside it: the state one iteration hands to the next"""
+    blocks = info['loops'][L]
+    ud = {b: _block_use_def(fn, b) for b in blocks}
+    live_in = {b: set(ud[b][0]) for b in blocks}
+    changed = True
+    while changed:
+        changed = False
+        for b in blocks:
+            out = set()
+            for s_ in info['succ'].get(b, []):
+                if s_ in blocks: out |= live_in[s_]
+            new = ud[b][0] | (out - ud[b][1])
+            if new != live_in[b]: live_in[b] = new; changed = True
+    defs = set()
+    for b in blocks: defs |= ud[b][1] | ud[b][2]
+    # a write through a projection also changes the local
+    for b in blocks:
+        stmts, term, _ = fn.blocks[b]
+        for st in stmts:
+            if st[0] == 'assign' and _is_place(st[1]) and st[1][1] and st[1][1][0][0] != 'deref': defs.add(st[1][0])
+        if isinstance(term, tuple) and term[0] == 'call' and term[1] is not None and _is_place(term[1]) and term[1][1] and term[1][1][0][0] != 'deref': defs.add(term[1][0])
+    carried = live_in[L] & defs
+    # memory behind a pointer local that the loop writes through (`(*_p).f = ...`): reported as the negative local number
+    for b in blocks:
+        stmts, term, _ = fn.blocks[b]
+        for st in stmts:
+            if st[0] in ('assign', 'setdiscr') and _is_place(st[1]) and st[1][1] and st[1][1][0][0] == 'deref': carried.add(-st[1][0])
+    named = set(fn.debug.values())
+    # compiler-made drop flags: unnamed bool locals
+    return {l for l in carried if not (l >= 0 and l not in named and fn.locals.get(l) == 'bool')}
+
+
+def _carried_of(frame):
+    inv = {v: k for k, v in frame.fn.debug.items()}
+    return {l: (inv.get(l, '_%d' % l) if l >= 0 else '*' + inv.get(-l, '_%d' % -l)) for l in loop_carried(frame.fn, frame.info, frame.L)}
+
+
+LoopFrame.carried = _carried_of
+
+
+def _require(frame, names, also=()):
+    """the lemma quantifies over the locals `names`; every other local that carries state between iterations must be listed in
+    `also` (with the reason known to the harness) - otherwise the code has grown state the lemma does not cover"""
+    known = {frame.local(n) for n in names} | {frame.fn.debug[n] for n in also if n in frame.fn.debug} | {int(n[1:]) for n in also if n.startswith('_') and n[1:].isdigit()}
+    known |= {-frame.fn.debug[n[1:]] for n in also if n.startswith('*') and n[1:] in frame.fn.debug}
+    extra = {l: nm for l, nm in frame.carried().items() if l not in known}
+    if extra: raise NotRecognised('the loop of %s carries state in %s, which the lemma does not quantify over' % (frame.fn.name, ', '.join(sorted(extra.values()))))
+
+
+LoopFrame.require = _require
